@@ -632,6 +632,33 @@ def gen_solver_cases(ctx):
         cases.append({'fam': 'solver', 'cls': '%s:%s:x%d' % (cls, B['kind'], len(builds)), 'mats': [B], 'B': 0,
                       'builds': builds, 'x': set_xdtype(rng, rx(rng, n)), 'how': rhow(rng),
                       'xs': [set_xdtype(rng, rx(rng, n)) for _ in range(2)]})
+    # sparse/dense SYMMETRIC INDEFINITE, well-conditioned matrices whose diagonal is present but tiny
+    # (path-graph adjacency + 2^-53 I, n even: cond < 20; saddle point [[A, B^T], [B, -2^-40 I]]) with
+    # symmetric=True: a pivoting strategy that trusts the diagonal fails here; partial pivoting does not
+    for i in range(24 * mult):
+        if i % 2 == 0:
+            n = rng.choice([2, 4, 6])
+            M = [[1.0 if abs(a - b) == 1 else (2.0 ** -53 if a == b else 0.0) for b in range(n)] for a in range(n)]
+            nm_ = 'path'
+        else:
+            k = rng.randint(2, 4)
+            m = rng.randint(1, k)
+            n = k + m
+            M = [[0.0] * n for _ in range(n)]
+            for a in range(k):
+                M[a][a] = 2.0
+                if a + 1 < k:
+                    M[a][a + 1] = M[a + 1][a] = -1.0
+            for a in range(m):
+                M[k + a][a] = M[a][k + a] = 1.0
+                M[k + a][k + a] = -(2.0 ** -40)
+            nm_ = 'saddle'
+        kind = rng.choice(['csr', 'csc', 'csr', 'csc', 'dense', 'denseF'])
+        B = {'kind': kind, 'r': n, 'c': n, 'data': [v for row in M for v in row]}
+        builds = [{'symmetric': True}] if i % 4 < 2 else [{'symmetric': True}, {}]
+        cases.append({'fam': 'solver', 'cls': 'symmetric_indefinite_tinydiag_%s:%s:x%d' % (nm_, kind, len(builds)),
+                      'mats': [B], 'B': 0, 'builds': builds, 'x': set_xdtype(rng, rx(rng, n)), 'how': rhow(rng),
+                      'xs': [set_xdtype(rng, rx(rng, n)) for _ in range(2)]})
     for i in range(54 * mult):
         nm = rng.randint(1, 2)
         mats = [dd_matrix(rng, rng.randint(1, 4), rng.random() < 0.4, skind()) for _ in range(nm)]
@@ -785,6 +812,8 @@ def run(ctx):
     ctx.obligations_stage(PROPS, extra_targets=['C16/Examples.vo', 'C16/Cases.vo'])
     # theorems over mathcomp's algebraic hierarchy (bridge file, ssreflect style)
     ctx.obligations_stage('C16/PropsField.v', extra_targets=['C16/ExamplesField.vo'])
+    # adjoints over a ring with conjugation, BlockOperator fallback, fastdiag operator = U diag U^T, placeholders
+    ctx.obligations_stage('C16/Props3.v', extra_targets=['C16/Examples3.vo', 'C16/Cases3.vo'])
     ctx.assumptions += [
         'model: hand transcription of apply_tprod/_modek_tensordot_sparse/modek_tprod (tensor.py), '
         '_apply_kronecker_dense/_apply_kronecker_linops/apply_kronecker (kronecker.py), KroneckerOperator dispatch, '
@@ -793,7 +822,8 @@ def run(ctx):
         'numpy semantics read into the model: ndarray = shape + index function, C-order reshape, tensordot/rollaxis/moveaxis '
         'axis conventions, F-contiguous buffers under reshape(order=F)/resize; scipy LinearOperator.dot/matvec/matmat wrappers '
         'and the default column-by-column _matmat are outside the model',
-        'adjoints: real operands only (.H is compared with the transposed dense definition)',
+        'adjoints: real operands in every class (.H compared with the transposed dense definition); complex operands only where the code accepts them '
+        '(KroneckerOperator on its tensordot branch, DiagonalOperator): conjugate transpose, model over the Gaussian integers (Cases3.v)',
         'solver factories: LAPACK/SuperLU/eigh satisfy their contracts (hypotheses of kron_solver_inverts/fastdiag_inverts); '
         'checked numerically through exact residuals',
     ]
@@ -899,6 +929,9 @@ def run(ctx):
         if slug:
             ctx.report('impl:%s:%s:%s:x=%s' % (slug, c['fam'], c['cls'], c['x'].get('dtype', 'f8')), text, {'case': c, 'impl': r,
                        'how': 'harness/impl/c16_driver.py run_case(case)'})
+    # ---- extension: complex operands, fastdiag factors into the model, every placeholder mask
+    from harness.props import c16_ext
+    c16_ext.run_ext(ctx)
     ctx.cov['solver_cases'] = len(scases)
     ctx.cov['solver_distribution'] = sdist
     ctx.cov['rounding_bound'] = 'see solver_tol in harness/props/c16.py (8 n^3 2^(n-1) u ||A|| ||y|| per factorisation, times conditioning)'
@@ -942,7 +975,7 @@ META = {
                  'sum algebra, ravel/unravel index arithmetic) + exact integer correspondence of every operator class with '
                  'the implementation evaluated by vm_compute + dense-definition oracle on the implementation + exact residual '
                  'bounds for the solver factories',
-    'level_text': 'Theorems (Coq, unbounded, any commutative ring; 43 theorems (39 in Props.v, 4 in PropsField.v over mathcomp comRingType), all closed under the global context; apply_kronecker_spec[_multi] (its own dispatch); left_inverse_is_right_inverse, eigh_contract_suffices, fastdiag_inverts_eigh[_multi] (fastdiag from the contract eigh actually provides, U^T M U = I); in addition to the list below: grid_block_transpose_full, kron_reduce_spec (left-nested reduce(np.kron) = kron_ent), lap_code_spec, diag_code_spec, fastdiag_inverts_multi, fastdiag_inverts_code[_multi] about the expressions the code builds): apply_tprod '
+    'level_text': 'Theorems (Coq, unbounded, any commutative ring; 55 theorems (39 in Props.v, 4 in PropsField.v over mathcomp comRingType, 12 in Props3.v), all closed under the global context; Props3.v: adjoints over a commutative ring with a conjugation (kron_adjoint[_multi], block_adjoint, diag_adjoint[_spec], adjoint_involutive, adjoint_real_is_transpose), BlockOperator incl. its NullOperator fallback (block_operator_apply_spec), DiagonalOperator on 2-D arguments (diag_matmat_spec), fastdiag_solver operator = kron(U) diag(dinv) kron(U)^T for any U, dinv (fastdiag_apply_spec[_multi]), None placeholders of apply_tprod = identity matrices (apply_tprod_placeholders); apply_kronecker_spec[_multi] (its own dispatch); left_inverse_is_right_inverse, eigh_contract_suffices, fastdiag_inverts_eigh[_multi] (fastdiag from the contract eigh actually provides, U^T M U = I); in addition to the list below: grid_block_transpose_full, kron_reduce_spec (left-nested reduce(np.kron) = kron_ent), lap_code_spec, diag_code_spec, fastdiag_inverts_multi, fastdiag_inverts_code[_multi] about the expressions the code builds): apply_tprod '
                   'computes Y[a,t] = sum_J prod_k B_k[a_k,j_k] X[J,t] for any number of operands, dense (tensordot) and '
                   'sparse/LinearOperator (_modek_tensordot_sparse) branches, rectangular shapes, None placeholders, trailing axes '
                   '(apply_tprod_spec, modek_sparse_spec, kron_core_spec); _apply_kronecker_dense equals the flat np.kron matrix times x '
@@ -958,7 +991,7 @@ META = {
                   'make_kronecker_solver applies the inverse of kron(B_k) given B_k.Binv_k = I, vectors and several right-hand sides '
                   '(kron_solver_inverts[_multi], mixed-product property kron_ent_mul); fastdiag_solver applies the inverse of the '
                   'Kronecker-sum matrix in ANY dimension given the eigh contract K U = M U Lambda, (M U) U^T = I (fastdiag_inverts, vectors). '
-                  'NOT theorems: the LAPACK/SuperLU/eigh contracts themselves (residual check only); fastdiag_apply is not in the correspondence case files; complex adjoints. The model is tied to /repo by '
+                  'NOT theorems: the LAPACK/SuperLU/eigh contracts themselves (residual check only); (fastdiag_apply[_mat] IS now in the correspondence run: the U_k, eigenvalues and 1/diag held by the implementation enter the model over Qc as exact rationals, application compared exactly for monomial power-of-two U_k and within gamma_K sum|U||dinv||U^T||x| otherwise; complex operands for KroneckerOperator(tensordot branch)/DiagonalOperator incl. .H are compared exactly over the Gaussian integers; every None mask x axis count 1..4 x 0..2 trailing axes of apply_tprod). The model is tied to /repo by '
                   '~1100 (thorough ~4500) random integer cases over all operator classes, storage kinds and argument forms compared exactly '
                   'inside Coq and against np.kron/np.block/...; operands are compared bitwise with snapshots; solver factories are checked by '
                   'exactly computed residuals (shared array objects, C/F/transposed layouts) against a stated bound.',
